@@ -378,14 +378,22 @@ pub fn run_check(opt: &Options) -> i32 {
                 loop {
                     let next = systematic.lock().unwrap().pop();
                     let Some((i, case)) = next else { break };
+                    let started = Instant::now();
                     let j = judge(prop, &case.scenario, case.aux.as_ref());
+                    if started.elapsed().as_secs() >= 5 {
+                        eprintln!("note: systematic case {i} ({}) took {:.1}s, {} steps, {} polls", case.profile, started.elapsed().as_secs_f64(), j.steps, j.polls);
+                    }
                     absorb(&mut local, 1_000_000_000 + i as u64, case, j);
                 }
                 let mut idx = t as u64;
                 while idx < random_runs {
                     let mut rng = Rng::derive(opt.seed, idx, 0);
+                    let started = Instant::now();
                     let case = props::generate(prop, opt.tier, &mut rng, idx);
                     let j = judge(prop, &case.scenario, case.aux.as_ref());
+                    if started.elapsed().as_secs() >= 5 {
+                        eprintln!("note: run {idx} ({}) took {:.1}s, {} steps, {} polls", case.profile, started.elapsed().as_secs_f64(), j.steps, j.polls);
+                    }
                     absorb(&mut local, idx, case, j);
                     idx += threads as u64;
                 }
@@ -462,6 +470,11 @@ pub fn run_check(opt: &Options) -> i32 {
                 original_steps: case.scenario.steps.len(),
             };
             std::fs::write(&fname, serde_json::to_string_pretty(&rf).unwrap()).expect("write replay file");
+            if std::env::var("VERIF_KEEP_ORIGINAL").is_ok() {
+                // triage aid: the scenario as generated, before minimisation
+                let orig = ReplayFile { aux: case.aux.clone(), scenario: case.scenario.clone(), message: viol.message.clone(), ..rf.clone() };
+                std::fs::write(format!("{fname}.orig"), serde_json::to_string_pretty(&orig).unwrap()).ok();
+            }
             if let Some(k) = known_match(&known, final_v) {
                 println!("KNOWN-FINDING: property={prop} {} [{}] replay={fname}", k.what, viol.class);
                 known_hit.push(viol.class.clone());
